@@ -43,9 +43,9 @@ CLAIMED = {
     "C14": ("Proved for every feature AST (strand, any number of segments, codon_start): the ordered position list derived on the GenBank path, for complement(join(..)) and for join(complement(..),..), equals the one derived on the GFF3 path from the equivalent rows. Correspondence: one AST rendered both ways, parsed by the real code; regions compared field by field (name, strand, positions, translation) with the AST-level Coq model; variants run with each rendering on the same alignment must list the same mutations; each output byte for byte against the Coq caller model and against the statement-level oracle.",
             "Coq proof (AST-level position lists) + correspondence check over both renderings",
             "The text parsers (FEATURES/ORIGIN, GFF rows, location strings) are modelled at AST level only and exercised by rendering and re-parsing.", "5 C14"),
-    "C02": ("Proved for every CIGAR over the nine operators, with and without insertion columns: the paired walk yields rows of equal length whose reference row, with its gap columns removed, is exactly the stretch of the reference the CIGAR consumes. Proved for queries described by ANY number of records (single, supplementary, overlapping): the whole pipeline - per-record rows, the re-gapping loop over the sorted insertions (find_col / regap_row), '*'-padding, column-wise flattening, right-extension - yields as reference row exactly the canonical gapped reference (after the k-th base, the total length of the block's insertions at k), so removing '-' gives exactly the reference, the gap columns are exactly the inserted bases (|R| = |ref| + total inserted length), the query row has the same length, and the query row read through the reference row (the columns where the reference row is '-' deleted) is exactly the sam toMultiAlign --pad row of the same block (so every reference position carries the aligned base / '-' / 'N'); with --skip-insertions the pair is (reference, toMultiAlign --pad row); a query without insertions gives the same pair. The order of the inserted bases inside the gap columns, the window cut (C15 theorem), wrap and file writer are an executable Coq model compared byte for byte with sam.ToPairAlign (directory output), and the implementation's files are compared with pairs written from the statement (reference row = reference with '-' exactly at the query's insertions; query row = toMultiAlign --pad row with the inserted bases in place).",
+    "C02": ("Proved for every CIGAR over the nine operators, with and without insertion columns: the paired walk yields rows of equal length whose reference row, with its gap columns removed, is exactly the stretch of the reference the CIGAR consumes. Proved for queries described by ANY number of records (single, supplementary, overlapping): the whole pipeline - per-record rows, the re-gapping loop over the sorted insertions (find_col / regap_row), '*'-padding, column-wise flattening, right-extension - yields as reference row exactly the canonical gapped reference (after the k-th base, the total length of the block's insertions at k), so removing '-' gives exactly the reference, the gap columns are exactly the inserted bases (|R| = |ref| + total inserted length), the query row has the same length, and the query row read through the reference row (the columns where the reference row is '-' deleted) is exactly the sam toMultiAlign --pad row of the same block (so every reference position carries the aligned base / '-' / 'N'); with --skip-insertions the pair is (reference, toMultiAlign --pad row); a query without insertions gives the same pair; and when no two different records insert at the same reference position, the query row read in the gap columns is exactly the inserted bases of the records, position after position, in CIGAR order (pairk_insertions). The window cut (C15 theorem), wrap and file writer are an executable Coq model compared byte for byte with sam.ToPairAlign (directory output), and the implementation's files are compared with pairs written from the statement (reference row = reference with '-' exactly at the query's insertions; query row = toMultiAlign --pad row with the inserted bases in place).",
             "Coq proof (induction over CIGAR operators; segment representation and invariant over the re-gapping loop) + correspondence check + statement-level oracle",
-            "All clauses but one are proved for all blocks (no distinctness assumption needed): only 'the query row carries every INSERTED base in order' (what fills the gap columns) is decided by the oracle and the differential run. Hypotheses: the reference has no '-' and no byte below '*'.", "5 C02"),
+            "Every clause of the statement has a theorem: the reference-row, length and aligned-position clauses for all blocks, the inserted-bases clause for blocks in which no two different records insert at the same position (the property's non-conflict case) with SEQ bytes above '-'. Hypotheses: the reference has no '-' and no byte below '*'.", "5 C02"),
     "C11": ("Model-level theorem: `sam variants` applies the shared caller to the encoded rows block_to_seq_pair builds, i.e. to the pair `sam toPairAlign` writes (reading that pair back from FASTA unchanged is C16); and for a query without insertions (any number of records) that pair is the reference and the query's sam toMultiAlign --pad row, so `sam variants` reports what `variants` computes for that two-row alignment (uses the C02 theorem that the query row read through the reference row is the --pad row). Correspondence with the real commands: sam variants vs its Coq model byte for byte; and, Go against Go as the statement says, sam variants vs variants --msa on the files written by sam toPairAlign, and vs variants on the sam toMultiAlign --pad rows of insertion-free queries.",
             "Coq proof (reduction to the shared caller; C02 pair theorems for the toMultiAlign clause) + three-command correspondence check",
             "The first theorem is short: the substance is in C02/C04/C05/C16 and in the cross-command differential run.", "5 C11"),
